@@ -229,10 +229,16 @@ def genHookHandle (op : String) (args : List Sexp) : Option Sexp :=
       if worldUnmodelled g then some (.atom "unmodelled")
       else
         -- every member hook runs the composition at its own class; a payload outside the fragment is `unmodelled`
+        -- (a TypedDict member is structured by the TypedDict generator, every other kind by the class template:
+        -- `memberHookK` of GenHook/TaggedKinds.lean)
+        let mty : Nat → Ty := fun k =>
+          match g.classes[k]? with
+          | some c => if c.kind == .typeddict then .td k else .cls k
+          | none => .cls k
         let hook : Nat → Obj → HRes := fun k q =>
-          match budget g (.cls k) cap with
+          match budget g (mty k) cap with
           | none => .error (.extra 0 [fuelMark])
-          | some n => if unmodST g (some (.cls k)) q then .error (.extra 0 [fuelMark]) else stTy g n (some (.cls k)) q
+          | some n => if unmodST g (some (mty k)) q then .error (.extra 0 [fuelMark]) else stTy g n (some (mty k)) q
         match tagHookSt U hook o with
         | .ok v => some (replyObj v)
         | .error e =>
